@@ -148,7 +148,10 @@ def mutation_ops(rng, sh, n, k, p_bad=0.0, removed_texts=None):
             nm = rng.choice(ids)
             if rng.random() < p_bad:
                 # '*' only for record types whose identifier is optional (E,G,O,U)
-                new = rng.choice(ids + (["*"] if sh.named.get(nm) in ("E", "G", "O", "U") else []))
+                # (a line mentioned by a group cannot become anonymous: the mention could not be written any more)
+                mentioned = any(t.split("\t")[0] in ("O", "U") and nm in [x.rstrip("+-") for x in t.split("\t")[2].split(" ")]
+                                for t in sh.texts if len(t.split("\t")) > 2)
+                new = rng.choice(ids + (["*"] if (sh.named.get(nm) in ("E", "G", "O", "U") and not mentioned) else []))
             else:
                 new = sh.fresh(rng)
             ops.append({"op": "rename", "id": nm, "new": new})
